@@ -6,7 +6,7 @@ that matches fewer instances than its floor fails closed.
 import re
 from collections import defaultdict
 
-from mirlib import (feasible_reach, callee_path, callee_decl_path, callee_ty_args, op_place, op_local, op_int,
+from mirlib import (feasible_reach, paths_reaching, callee_path, callee_decl_path, callee_ty_args, op_place, op_local, op_int,
                     local_defs, single_def, trace_value, fmt_span, place_str, op_str)
 
 
@@ -559,6 +559,27 @@ def truc_rule_flow(ctx, crate):
                                     ctx.add(['C18'], 'H-FLOW', b.key, 'TypeInfo.%s is overwritten from %s at %s, not from the override\'s `%s`' % (fname, sorted(src), fmt_span(s2.get('span')), want), key='%s|override.%s' % (b.key, fname))
                                 else:
                                     ctx.inst('H-FLOW', 'add_datum_override: TypeInfo.%s <- override.%s' % (fname, want))
+                if not ok_ti and name == 'add_datum_override':
+                    # a TypeInfo literal assembled field by field: each field is the resolver's answer
+                    # unless the override of the same kind says otherwise
+                    lit = trace_value(b, defs, vals['type_info'])[-1]
+                    if lit[0] == 'rv' and lit[1]['k'] == 'aggregate' and lit[1].get('adt') == 'truc::record::type_resolver::TypeInfo':
+                        ok_ti = True
+                        for fname, fop in zip(lit[1]['field_names'], lit[1]['fields']):
+                            want = {'name': 'type_name', 'size': 'size', 'align': 'align'}.get(fname)
+                            src = origin_class(crate, b, defs, fop)
+                            good = all(x.startswith('resolver.type_info') and x.endswith('.' + fname) or
+                                       (x.startswith('unwrap_or(param:3.%s' % want) and (';resolver.type_info' in x) and x.rstrip(')').endswith('.' + fname))
+                                       for x in src)
+                            if good:
+                                ctx.inst('H-FLOW', 'add_datum_override: TypeInfo.%s <- override.%s or the resolver\'s' % (fname, want))
+                            else:
+                                ok_ti = False
+                                ctx.add(['C18'], 'H-FLOW', b.key, 'TypeInfo.%s of a new datum flows from %s at %s, not from the override\'s `%s` or the resolver\'s answer' % (fname, sorted(src), where, want), key='%s|override.%s' % (b.key, fname))
+                        if ok_ti:
+                            ti = {'literal of resolver / override fields'}
+                        else:
+                            continue
                 if not ok_ti:
                     ctx.add(['C18'], 'H-FLOW', b.key, 'the type information of a new datum flows from %s at %s, not from the resolver / the override / the copied datum' % (sorted(ti), where), key='%s|type_info' % b.key)
                 want_au = {'add_datum': lambda x: x == 'const:0', 'add_datum_allow_uninit': lambda x: x == 'const:1',
@@ -985,6 +1006,28 @@ def truc_rule_offsets(ctx, crate):
                         if pl[0] == 'ref' and [e.get('name') for e in pl[2]['p'] if isinstance(e, dict) and 'name' in e] == ['data']:
                             okc = True
             ok1 = ok1 and okc
+    if not ok1:
+        # `match self.variants.last() { Some(v) => v.data.clone(), None => Vec::new() }` (possibly in an
+        # inlined helper): every source of the argument is a clone of `.data` of the payload of
+        # variants.last(), or an empty vector
+        kinds = set()
+        for s_ in sources(b, defs, t['args'][1]):
+            if s_[0] == 'call' and (callee_path(s_[1]) or '').startswith('alloc::vec::Vec::<T>::new'):
+                kinds.add('empty')
+                continue
+            if s_[0] == 'call' and callee_path(s_[1], resolved=False) in ('core::clone::Clone::clone',) and s_[1]['args']:
+                pl = trace_value(b, defs, s_[1]['args'][0])[-1]
+                if pl[0] == 'ref' and [e.get('name') for e in pl[2]['p'] if isinstance(e, dict) and 'name' in e][-1:] == ['data']:
+                    base = trace_value(b, defs, {'copy': {'l': pl[2]['l'], 'p': [], 'ty': None}})[-1]
+                    if base[0] == 'place' and any(isinstance(e, dict) and e.get('name') == 'Some' for e in base[1]['p']):
+                        lst = trace_value(b, defs, {'copy': {'l': base[1]['l'], 'p': [], 'ty': None}})[-1]
+                        if lst[0] == 'call' and callee_path(lst[1]) == 'core::slice::<impl [T]>::last':
+                            sfl = self_field_of(b, defs, lst[1]['args'][0])
+                            if sfl and sfl[0] == ['variants']:
+                                kinds.add('clone')
+                                continue
+            kinds.add('?')
+        ok1 = kinds == {'empty', 'clone'}
     if a2 != ['data_to_add'] or a3 != ['data_to_remove'] or f4 != ['datum_definitions'] or not ok1:
         ctx.add(['C03', 'C12'], 'W1d', b.key, 'the strategy is not handed (clone of the last variant\'s data, take(data_to_add), take(data_to_remove), &mut datum_definitions): got (%s, %s, %s, %s)' % ('ok' if ok1 else '?', a2, a3, f4), key='args')
     else:
@@ -1358,46 +1401,85 @@ def truc_rule_builder(ctx, crate):
             # the new variant: id = variants.len() read before the push, data = strategy result
             agg = [st for _, _, st in b.statements() if st['k'] == 'assign' and st['rv']['k'] == 'aggregate' and st['rv'].get('adt') == T + 'RecordVariant']
             ok = False
+            vals = None
             if len(agg) == 1:
                 vals = dict(zip(agg[0]['rv']['field_names'], agg[0]['rv']['fields']))
+            elif not agg:
+                # a constructor function whose body is the plain literal {id: arg, data: arg}
+                for bb_, t_ in b.calls():
+                    cbody = crate.lookup(callee_path(t_) or '')
+                    if cbody is None or cbody.arg_count != len(t_['args']):
+                        continue
+                    cagg = [st for _, _, st in cbody.statements() if st['k'] == 'assign' and st['rv']['k'] == 'aggregate' and st['rv'].get('adt') == T + 'RecordVariant']
+                    if len(cagg) == 1 and len([1 for _ in cbody.calls()]) == 0:
+                        cd = local_defs(cbody)
+                        m = {}
+                        for fname, fop in zip(cagg[0]['rv']['field_names'], cagg[0]['rv']['fields']):
+                            src_ = trace_value(cbody, cd, fop)[-1]
+                            if src_[0] == 'param':
+                                m[fname] = t_['args'][src_[1] - 1]
+                        if set(m) == {'id', 'data'}:
+                            vals = m
+            if vals is not None:
                 i = trace_value(b, defs, vals['id'])[-1]
                 d = trace_value(b, defs, vals['data'])[-1]
-                ok = i[0] == 'call' and 'into' in (callee_path(i[1]) or '') and d[0] == 'call' and callee_path(d[1], resolved=False) == T + 'builder::generic::variant::RecordVariantBuilder::build'
+                ok = i[0] == 'call' and ('into' in (callee_path(i[1]) or '') or (callee_path(i[1], resolved=False) or '').endswith('From::from')) and d[0] == 'call' and callee_path(d[1], resolved=False) == T + 'builder::generic::variant::RecordVariantBuilder::build'
                 if ok:
                     ln = trace_value(b, defs, i[1]['args'][0])[-1]
                     ok = ln[0] == 'call' and callee_path(ln[1]) == 'alloc::vec::Vec::<T, A>::len' and (self_field_of(b, defs, ln[1]['args'][0]) or [None])[0] == ['variants']
+                    if ok:
+                        # nothing changes the number of variants between reading it and the push
+                        ln_bb = [bb_ for bb_, t_ in b.calls() if t_ is ln[1]][0]
+                        between = b.reachable(ln[1]['t'], unwind=False, removed_blocks=[pushes[0]]) if ln[1]['t'] is not None else set()
+                        for bb_, t_ in b.calls():
+                            if bb_ in between and bb_ != ln_bb and t_['args']:
+                                sfx = self_field_of(b, defs, t_['args'][0])
+                                if sfx and sfx[0] == ['variants'] and sfx[1]:
+                                    ok = False
             if not ok:
                 ctx.add(['C12'], 'B-NOOP', b.key, 'the pushed variant is not {id: variants.len(), data: strategy result}', key='variant-literal')
             else:
                 ctx.inst('B-NOOP', 'pushed variant = {id: variants.len(), data: strategy result}')
     ctx.floor(['C12'], 'B-NOOP', 2)
 
-    # B-BUILD
+    # B-BUILD: every way to the RecordDefinition literal has established that both pending lists are empty
     b = crate.body(GB + 'build')
     if b is not None:
         defs = local_defs(b)
         aggs = [bb for bb, si, st in b.statements() if st['k'] == 'assign' and st['rv']['k'] == 'aggregate' and st['rv'].get('adt') == T + 'RecordDefinition']
-        guards = {}
-        for sb in range(len(b.blocks)):
-            si = switch_info(b, defs, sb)
-            if si and si[0] == 'val' and si[1][0] == 'call' and callee_path(si[1][1]) == 'alloc::vec::Vec::<T, A>::is_empty':
-                sf = self_field_of(b, defs, si[1][1]['args'][0])
-                if sf is None:
-                    # `self` by value: &_1.field
-                    r = trace_value(b, defs, si[1][1]['args'][0])[-1]
-                    if r[0] == 'ref' and r[2]['l'] == 1:
-                        sf = ([e.get('name') for e in r[2]['p'] if isinstance(e, dict) and 'name' in e], False)
-                if sf:
-                    guards[tuple(sf[0])] = (sb, edge_for(b, sb, not si[2]))     # the "is empty" edge
-        if len(aggs) != 1 or set(guards) != {('data_to_add',), ('data_to_remove',)}:
-            ctx.add(['C12'], 'B-BUILD', b.key, 'build(): cannot find the RecordDefinition literal guarded by both emptiness tests (%s)' % sorted(guards), key='shape')
+
+        def field_of_self(op):
+            sf = self_field_of(b, defs, op)
+            if sf is not None:
+                return tuple(sf[0])
+            r = trace_value(b, defs, op)[-1]
+            if r[0] == 'ref' and r[2]['l'] == 1:          # `self` by value: &_1.field
+                return tuple(e.get('name') for e in r[2]['p'] if isinstance(e, dict) and 'name' in e)
+            if r[0] == 'ref' and r[2]['p'] and r[2]['p'][0] == 'deref':
+                # through a `&self` helper that was inlined: (*_x).field with _x = &_1
+                d0 = single_def(defs, r[2]['l'])
+                if d0 and d0[0] == 'stmt' and d0[3]['rv']['k'] == 'ref' and not d0[3]['rv']['place']['p'] and d0[3]['rv']['place']['l'] == 1:
+                    return tuple(e.get('name') for e in r[2]['p'] if isinstance(e, dict) and 'name' in e)
+            return None
+
+        def sym(tm):
+            if callee_path(tm) == 'alloc::vec::Vec::<T, A>::is_empty' and tm['args']:
+                f = field_of_self(tm['args'][0])
+                if f in (('data_to_add',), ('data_to_remove',)):
+                    return f[0]
+            return None
+        if len(aggs) != 1:
+            ctx.add(['C12'], 'B-BUILD', b.key, 'build(): cannot find the RecordDefinition literal', key='shape')
         else:
-            for f, (sb, e) in guards.items():
-                reach = b.reachable(0, unwind=False, removed_edges=[(sb, e)])
-                if aggs[0] in reach:
-                    ctx.add(['C12'], 'B-BUILD', b.key, 'build() can produce a definition although %s is not empty (unclosed changes are silently dropped)' % f[0], key='bypass-%s' % f[0])
-                else:
-                    ctx.inst('B-BUILD', 'RecordDefinition is built only when %s is empty' % f[0])
+            ways = paths_reaching(b, aggs[0], sym)
+            if not ways:
+                ctx.add(['C12'], 'B-BUILD', b.key, 'build(): cannot follow the paths to the RecordDefinition literal (unanalysable: fail closed)', key='shape')
+            else:
+                for f in ('data_to_add', 'data_to_remove'):
+                    if all(w.get(f) is True for w in ways):
+                        ctx.inst('B-BUILD', 'RecordDefinition is built only when %s is empty (%d paths)' % (f, len(ways)))
+                    else:
+                        ctx.add(['C12'], 'B-BUILD', b.key, 'build() can produce a definition although %s is not known to be empty (unclosed changes are silently dropped)' % f, key='bypass-%s' % f)
     ctx.floor(['C12'], 'B-BUILD', 2)
 
     # B-APPEND
@@ -1487,6 +1569,8 @@ def sources(b, defs, op, depth=0, seen=None):
         if l in seen:
             return []
         seen.add(l)
+        if not defs.get(l):
+            return [t]      # (a local the caller asked not to look through)
         for d in defs.get(l, []):
             if d[0] == 'call':
                 out.append(('call', d[2]))
@@ -1502,8 +1586,13 @@ def sources(b, defs, op, depth=0, seen=None):
         if len(pl['p']) == 1 and isinstance(pl['p'][0], dict) and 'f' in pl['p'][0] and pl['p'][0].get('tuple'):
             k = pl['p'][0]['f']
             for d in defs.get(pl['l'], []):
+                if d[0] == 'stmt' and b.blocks[d[1]]['cleanup']:
+                    continue
                 if d[0] == 'stmt' and d[3]['rv']['k'] == 'aggregate' and d[3]['rv']['ak'] == 'tuple':
                     out += sources(b, defs, d[3]['rv']['fields'][k], depth + 1, seen)
+                elif d[0] == 'stmt' and d[3]['rv']['k'] == 'use' and op_local(d[3]['rv']['op']) is not None:
+                    # the tuple was built elsewhere and moved here
+                    out += sources(b, defs, {'copy': {'l': op_local(d[3]['rv']['op']), 'p': pl['p'], 'ty': None}}, depth + 1, seen)
                 else:
                     out.append(('opaque-tuple', pl))
             return out
@@ -1669,6 +1758,37 @@ def truc_rule_replay(ctx, crate):
     # V-DELTA: what is added / removed per variant
     carried = {}      # local -> True when it is a vector carried from one iteration to the next
 
+    def is_variants_of_source(op):
+        s_ = trace_value(b, defs, op)[-1]
+        if s_[0] == 'call' and callee_path(s_[1]) == T + 'RecordDefinition::<D>::variants':
+            return trace_value(b, defs, s_[1]['args'][0])[-1] == ('param', 1)
+        return False
+
+    def zip_of_previous_and_current():
+        """the loop iterates `once(None).chain(variants().map(Some)).zip(variants())`: each variant with its predecessor"""
+        ht = b.blocks[head]['term']
+        it = trace_value(b, defs, ht['args'][0])[-1]
+        if it[0] == 'ref' and not it[2]['p']:
+            for s_ in sources(b, defs, {'copy': it[2]}):
+                if s_[0] == 'call' and 'into_iter' in (callee_path(s_[1]) or ''):
+                    z = trace_value(b, defs, s_[1]['args'][0])[-1]
+                    if z[0] == 'call' and (callee_path(z[1], resolved=False) or '').endswith('Iterator::zip') and is_variants_of_source(z[1]['args'][1]):
+                        ch = trace_value(b, defs, z[1]['args'][0])[-1]
+                        if ch[0] == 'call' and (callee_path(ch[1], resolved=False) or '').endswith('Iterator::chain'):
+                            on = trace_value(b, defs, ch[1]['args'][0])[-1]
+                            mp = trace_value(b, defs, ch[1]['args'][1])[-1]
+                            once_none = False
+                            if on[0] == 'call' and (callee_path(on[1]) or '').endswith('once::once'):
+                                a0 = trace_value(b, defs, on[1]['args'][0])[-1]
+                                once_none = a0[0] == 'rv' and a0[1]['k'] == 'aggregate' and a0[1].get('variant') == 'None'
+                            map_some = False
+                            if mp[0] == 'call' and (callee_path(mp[1], resolved=False) or '').endswith('Iterator::map') and is_variants_of_source(mp[1]['args'][0]):
+                                f = trace_value(b, defs, mp[1]['args'][1])[-1]
+                                map_some = f[0] == 'const' and 'Option' in str(f[1].get('fn') or f[1].get('dbg') or '') and 'Some' in str(f[1].get('fn') or f[1].get('dbg') or '')
+                            return once_none and map_some
+        return False
+    zipped = zip_of_previous_and_current()
+
     def data_of(op, depth=0):
         """collect(RecordVariant::data(x)) -> 'cur' | 'prev' | None"""
         s = trace_value(b, defs, op)[-1]
@@ -1701,6 +1821,24 @@ def truc_rule_replay(ctx, crate):
             dt = trace_value(b, defs, s[1]['args'][0])[-1]
             if dt[0] == 'call' and callee_path(dt[1]) == T + 'RecordVariant::data':
                 x = trace_value(b, defs, dt[1]['args'][0])[-1]
+                if zipped and x[0] == 'place':
+                    # loop item = (previous variant if any, variant): follow the projections back to the item
+                    fields = []
+                    cur_ = x
+                    for _ in range(6):
+                        if cur_[0] != 'place':
+                            break
+                        fields = [e['f'] for e in cur_[1]['p'] if isinstance(e, dict) and 'f' in e] + fields
+                        nx = trace_value(b, defs, {'copy': {'l': cur_[1]['l'], 'p': [], 'ty': None}})[-1]
+                        if nx[0] == 'call' and b.blocks[head]['term'] is nx[1]:
+                            # (_item as Some).0 = the pair; .1 = current, .0 = Option of the previous one, its .0 the variant
+                            if fields == [0, 1]:
+                                return 'cur'
+                            if fields == [0, 0, 0]:
+                                return 'prev'
+                            return None
+                        cur_ = nx
+                    return None
                 if x[0] == 'place' and any(isinstance(e, dict) and e.get('name') == 'Some' for e in x[1]['p']):
                     nx = trace_value(b, defs, {'copy': {'l': x[1]['l'], 'p': [], 'ty': None}})
                     if nx[-1][0] == 'call' and b.blocks[head]['term'] is nx[-1][1]:
@@ -1721,6 +1859,8 @@ def truc_rule_replay(ctx, crate):
             for d in defs.get(l, []):
                 if d[0] == 'call' and callee_path(d[2], resolved=False) == 'core::clone::Clone::clone':
                     base = data_of(d[2]['args'][0])
+                elif d[0] == 'stmt' and d[3]['rv']['k'] == 'use' and not b.blocks[d[1]]['cleanup']:
+                    base = data_of(d[3]['rv']['op'])      # the vector itself, moved (it is not needed any more)
             against = data_of(cl[1]['fields'][0]) if cl[1]['fields'] else None
             # closure body: !contains(captured, d)
             cbody = closures.get(cl[1]['closure'])
@@ -1774,7 +1914,22 @@ def truc_rule_replay(ctx, crate):
 
     def kind_of(op):
         outs = set()
-        for s in sources(b, defs, op):
+        # a vector that was moved under another name and then filtered in place under that name
+        l = op_local(op)
+        for _ in range(6):
+            if l is None:
+                break
+            if l in retained:
+                return {retained[l]}
+            ds = [d for d in defs.get(l, []) if not b.blocks[d[1]]['cleanup']]
+            if len(ds) == 1 and ds[0][0] == 'stmt' and ds[0][3]['rv']['k'] == 'use':
+                l = op_local(ds[0][3]['rv']['op'])
+            else:
+                break
+        defs_stop = dict(defs)
+        for rl in retained:
+            defs_stop[rl] = []
+        for s in sources(b, defs_stop, op):
             if s[0] == 'multi' and s[1] in retained:
                 outs.add(retained[s[1]])
             elif s[0] == 'call' and not s[1]['dest']['p'] and s[1]['dest']['l'] in retained:
@@ -1837,6 +1992,8 @@ def truc_rule_replay(ctx, crate):
                 prev_ok = True
     if carried and not prev_ok:
         prev_ok = True      # established by data_of: the hand-over `old = new` is on every way back to the head
+    if zipped and not prev_ok:
+        prev_ok = True      # the iterator pairs every variant with its predecessor
     if not prev_ok:
         ctx.add(['C20'], 'V-DELTA', b.key, 'the previous-variant reference is not advanced after closing', key='prev-advance')
     else:
